@@ -14,6 +14,10 @@ FORCED = {
     '_ZNSt7__cxx1119basic_ostringstreamIcSt11char_traitsIcESaIcEEC1Ev', '_ZNSt7__cxx1119basic_ostringstreamIcSt11char_traitsIcESaIcEEC1ESt13_Ios_Openmode',
     '_ZNSt7__cxx1119basic_ostringstreamIcSt11char_traitsIcESaIcEED1Ev', '_ZNSt7__cxx1119basic_ostringstreamIcSt11char_traitsIcESaIcEED2Ev',
     '_ZNKSt7__cxx1119basic_ostringstreamIcSt11char_traitsIcESaIcEE3strEv',
+    '_ZNSt7__cxx1119basic_istringstreamIcSt11char_traitsIcESaIcEEC1ERKNS_12basic_stringIcS2_S3_EESt13_Ios_Openmode',
+    '_ZNSt7__cxx1119basic_istringstreamIcSt11char_traitsIcESaIcEED1Ev', '_ZNSt7__cxx1119basic_istringstreamIcSt11char_traitsIcESaIcEED2Ev',
+    '_ZSt7getlineIcSt11char_traitsIcESaIcEERSt13basic_istreamIT_T0_ES7_RNSt7__cxx1112basic_stringIS4_S5_T1_EES4_',
+    '_ZSt7getlineIcSt11char_traitsIcESaIcEERSt13basic_istreamIT_T0_ES7_RNSt7__cxx1112basic_stringIS4_S5_T1_EE',
     '_ZSt16__ostream_insertIcSt11char_traitsIcEERSt13basic_ostreamIT_T0_ES6_PKS3_l',
     '_ZNSolsEi', '_ZNSolsEl', '_ZNSo9_M_insertIlEERSoT_', '_ZNSo9_M_insertImEERSoT_', '_ZNSolsEj', '_ZNSolsEm',
     '_ZNSi4readEPcl', '_ZNSo5writeEPKcl', '_ZNSo5flushEv', '_ZNSi5tellgEv', '_ZNSi5seekgElSt12_Ios_Seekdir', '_ZNSi5seekgESt4fposI11__mbstate_tE',
@@ -267,6 +271,55 @@ def builtin(ex, st, fr, name, a, x, work):
         return 0
     if name.startswith('_ZN3fmt') and 'vformat' in name and x['ty'].k == 'void':
         S.add('fmt::vformat -> empty string (message formatting is never the subject)'); make_string(ex, st, a[0], []); return 0
+    # ---------------- std::_Rb_tree support (libstdc++.so internals): unbalanced BST with the same header/leftmost/rightmost contract
+    if name == '_ZSt29_Rb_tree_insert_and_rebalancebPSt18_Rb_tree_node_baseS0_RS_':
+        S.add('std::_Rb_tree_insert_and_rebalance -> BST insert without rebalancing (same lookups and in-order iteration)')
+        left = a[0]; xn = a[1]; p = a[2]; h = a[3]
+        def fld(n, k): return Ptr(n.obj, n.off + k)          # color@0 parent@8 left@16 right@24
+        def same(u, v): return u.obj == v.obj and u.off == v.off
+        ex.store_val(st, fld(xn, 8), PTR(I8), p); ex.store_val(st, fld(xn, 16), PTR(I8), NULL); ex.store_val(st, fld(xn, 24), PTR(I8), NULL); ex.store_val(st, fld(xn, 0), I32, 1)   # every node black, the header stays red
+        if not isinstance(left, bool):
+            if isc(left): left = bool(left & 1)
+            else: raise Violation('unsupported', 'symbolic insert side in rb-tree', st)
+        if left:
+            ex.store_val(st, fld(p, 16), PTR(I8), xn)
+            if same(p, h): ex.store_val(st, fld(h, 8), PTR(I8), xn); ex.store_val(st, fld(h, 24), PTR(I8), xn)
+            else:
+                lm = ex.load_val(st, fld(h, 16), PTR(I8))
+                if same(p, lm): ex.store_val(st, fld(h, 16), PTR(I8), xn)
+        else:
+            ex.store_val(st, fld(p, 24), PTR(I8), xn)
+            rm = ex.load_val(st, fld(h, 24), PTR(I8))
+            if same(p, rm): ex.store_val(st, fld(h, 24), PTR(I8), xn)
+        return 0
+    if name in ('_ZSt18_Rb_tree_incrementPSt18_Rb_tree_node_base', '_ZSt18_Rb_tree_incrementPKSt18_Rb_tree_node_base',
+                '_ZSt18_Rb_tree_decrementPSt18_Rb_tree_node_base', '_ZSt18_Rb_tree_decrementPKSt18_Rb_tree_node_base'):
+        S.add('std::_Rb_tree_increment/decrement -> in-order successor/predecessor')
+        inc = 'increment' in name
+        def fld(n, k): return ex.load_val(st, Ptr(n.obj, n.off + k), PTR(I8))
+        def same(u, v): return u.obj == v.obj and u.off == v.off
+        x0 = a[0]
+        if inc:
+            r = fld(x0, 24)
+            if r.obj != 0:
+                x0 = r
+                while fld(x0, 16).obj != 0: x0 = fld(x0, 16)
+                return x0
+            y = fld(x0, 8)
+            while same(x0, fld(y, 24)): x0 = y; y = fld(y, 8)
+            return y if not same(fld(x0, 24), y) else x0
+        col = ex.load_val(st, Ptr(x0.obj, x0.off), I32)
+        if col == 0 and same(fld(fld(x0, 8), 8), x0): return fld(x0, 24)      # header (the only red node of the model) -> rightmost
+        l = fld(x0, 16)
+        if l.obj != 0:
+            y = l
+            while fld(y, 24).obj != 0: y = fld(y, 24)
+            return y
+        y = fld(x0, 8)
+        while same(x0, fld(y, 16)): x0 = y; y = fld(y, 8)
+        return y
+    if name == '_ZSt28_Rb_tree_rebalance_for_erasePSt18_Rb_tree_node_baseRS_':
+        raise Violation('unsupported', 'rb-tree erase (not modelled)', st)
     # ---------------- strtol / strtoll / strtoul: exact on the C string (symbolic bytes fork per shape: blanks, sign, digit count)
     if name in ('strtol', 'strtoll', 'strtoul', 'strtoull', '__isoc23_strtol', '__isoc23_strtoll', '__isoc23_strtoul'):
         S.add('strtol: exact decimal model, forks on the shape of symbolic bytes (blanks/sign/digit count)')
@@ -343,8 +396,33 @@ def builtin(ex, st, fr, name, a, x, work):
     if name in ('_ZNSt6localeD1Ev', '_ZNSt6localeC1Ev', '_ZNSt8ios_baseD2Ev', '_ZNSt8ios_baseC2Ev', '_ZNSt8ios_base4InitC1Ev', '_ZNSt8ios_base4InitD1Ev',
                 '_ZNSt9basic_iosIcSt11char_traitsIcEE4initEPSt15basic_streambufIcS1_E'):
         S.add(name + ' -> no-op'); return 0
-    if name == '_ZSt7getlineIcSt11char_traitsIcESaIcEERSt13basic_istreamIT_T0_ES7_RNSt7__cxx1112basic_stringIS4_S5_T1_EES4_':
-        raise Violation('unsupported', 'std::getline on a memfile (not modelled)', st)
+    if name == '_ZNSt7__cxx1119basic_istringstreamIcSt11char_traitsIcESaIcEEC1ERKNS_12basic_stringIcS2_S3_EESt13_Ios_Openmode':
+        S.add('std::istringstream(string) -> memfile'); p = a[0]; fid = 1000 + len([k for k in st.mfs if k >= 1000]); mf = mf_get(st, fid)
+        mf['data'] = read_string(ex, st, a[1])
+        st.sbind = dict(st.sbind); st.sbind[p.obj] = fid
+        plant(ex, st, p, mf, 'istringstream')
+        for k in range(8, 64, 8): ex.store_val(st, Ptr(p.obj, p.off + 16 + k), PTR(I8), NULL)
+        ex.store_val(st, Ptr(p.obj, p.off + 88), PTR(I8), Ptr(p.obj, p.off + 104)); ex.store_val(st, Ptr(p.obj, p.off + 96), I64, 0); ex.store_val(st, Ptr(p.obj, p.off + 104), I8, 0)
+        return 0
+    if name in ('_ZNSt7__cxx1119basic_istringstreamIcSt11char_traitsIcESaIcEED1Ev', '_ZNSt7__cxx1119basic_istringstreamIcSt11char_traitsIcESaIcEED2Ev'):
+        st.sbind = {k: v for k, v in st.sbind.items() if k != a[0].obj}; return 0
+    if name in ('_ZSt7getlineIcSt11char_traitsIcESaIcEERSt13basic_istreamIT_T0_ES7_RNSt7__cxx1112basic_stringIS4_S5_T1_EES4_',
+                '_ZSt7getlineIcSt11char_traitsIcESaIcEERSt13basic_istreamIT_T0_ES7_RNSt7__cxx1112basic_stringIS4_S5_T1_EE'):
+        S.add('std::getline(istream, string[, delim]) -> memfile (concrete delimiter positions only)')
+        mf = mf_get(st, fid_of(st, a[0])); delim = a[2] if len(a) > 2 else 10
+        if not isc(delim): raise Violation('unsupported', 'symbolic getline delimiter', st)
+        if mf['state'] & (FAILBIT | BADBIT): make_string(ex, st, a[1], []); return a[0]
+        out = []; g = mf['g']; d = mf['data']; found = False
+        while g < len(d):
+            b = d[g]; g += 1
+            if not isc(b): raise Violation('unsupported', 'std::getline over symbolic bytes', st)
+            if b == (delim & 0xff): found = True; break
+            out.append(b)
+        got = g - mf['g']; mf['g'] = g
+        make_string(ex, st, a[1], out)
+        if not found:
+            set_state(ex, st, mf, EOFBIT | (FAILBIT if got == 0 else 0))
+        return a[0]
     return NOT
 
 
@@ -362,10 +440,18 @@ def make_string(ex, st, p, bs):
     ex.store_val(st, Ptr(buf.obj, buf.off + n), I8, 0)
 
 
+def read_string(ex, st, p):
+    """bytes of a libstdc++ std::string at p"""
+    from llsym import Ptr, Violation
+    buf = ex.load_val(st, p, PTR(I8)); n = ex.load_val(st, Ptr(p.obj, p.off + 8), I64)
+    if not isc(n): raise Violation('unsupported', 'std::string of symbolic length', st)
+    return [ex.load_val(st, Ptr(buf.obj, buf.off + i), I8) for i in range(n)]
+
+
 def plant(ex, st, p, mf, kind):
     """plant fake vtable pointer(s) so that inlined basic_ios accessors find the ios sub-object"""
     from llsym import Ptr
-    layout = {'ofstream': (248, [(0, 248)]), 'ifstream': (256, [(0, 256)]), 'fstream': (264, [(0, 264), (16, 248)]), 'ostringstream': (112, [(0, 112)])}[kind]
+    layout = {'ofstream': (248, [(0, 248)]), 'ifstream': (256, [(0, 256)]), 'fstream': (264, [(0, 264), (16, 248)]), 'ostringstream': (112, [(0, 112)]), 'istringstream': (120, [(0, 120)])}[kind]
     iosoff, vptrs = layout
     vt = ex.new_obj(st, 64 * len(vptrs), 'fake-vtable', kind='zero')
     for k, (at, vboff) in enumerate(vptrs):
